@@ -21,6 +21,8 @@ func schedScenarios(prop, tier string) []*Scenario {
 		return c09Scenarios(tier)
 	case "C06":
 		return c06Scenarios(tier)
+	case "C11":
+		return c11Scenarios(tier)
 	}
 	return nil
 }
@@ -62,6 +64,10 @@ func seqJobList(prop, tier string) []*SeqJob {
 		return c04Jobs(tier)
 	case "C05":
 		return c05Jobs(tier)
+	case "C10":
+		return c10Jobs(tier)
+	case "C11":
+		return c11Jobs(tier)
 	}
 	return nil
 }
